@@ -206,6 +206,8 @@ theorem Sim.single (v : Seq) : Sim id (IM.single v) (SM.single v) := by
   | [] => exact Sim.thr _ _
   | [.int _] => exact Sim.thr _ _
   | [.bool _] => exact Sim.thr _ _
+  | [.dec _] => exact Sim.thr _ _
+  | [.dbl _] => exact Sim.thr _ _
   | x :: y :: r => cases x <;> exact Sim.thr _ _
 
 theorem Sim.alloc (o : FObj) : Sim id (IM.alloc o) (SM.alloc (eraseObj o)) := by
